@@ -85,7 +85,7 @@ Definition rba_ok (c : grammar * N) : bool :=
 From Pegen Require Import Proofs.ExecStrip.
 Definition fp_ok (c : grammar * N) : bool :=
   match run_gen (fst c) (snd c) with
-  | inl m => reads_back_with_actions (strip_rules (has_invalid_alt invalid_tbl iter_fields_tbl) (rules (fst c))) (strip_module m)
+  | inl m => reads_back_with_actions (strip_rules (has_invalid_alt invalid_tbl iter_fields_tbl) (rules (fst c))) (strip_module m) && no_left_rec m
   | inr _ => false
   end.
 """
@@ -403,7 +403,7 @@ def run(chk: common.Check, tier: str):
     floor3 = [rb_term(t) for t in RBF_SEEDS]
     bad4 = common.run_cases(chk, "rbf_floor", prelude + RB_PRELUDE, "(grammar * N)", [x for x in floor3 if x], "fp_ok", shard=4, timeout=600)
     if bad4 is not None:
-        chk.oblige("instance condition of C01_first_pass_implements_the_grammar_without_its_invalid_alternatives: the stripped module "
+        chk.oblige("instance condition of C01_first_pass_implements_the_grammar_without_its_invalid_alternatives (and of the cached version: no leader): the stripped module "
                    "reads back as the source grammar without the alternatives mentioning an invalid_ rule (strip_rules with the extracted "
                    f"InvalidNodeVisitor table), for the {len(RBF_SEEDS)} shapes of RBF_SEEDS",
                    not bad4 and all(floor3), json.dumps([RBF_SEEDS[i] for i in bad4]))
